@@ -65,7 +65,7 @@ impl Property for C02 {
         "generated register-language configuration (intrinsic set, argument orders, padding, scratch pool sizes) + typed program body (expressions, locals, casts, ternaries, difficulty switches/labels, assignment ops, structured and raw control flow, time labels) x 8 register valuations (difficulty = index mod 4); non-trivial = lowering allocated a temporary/local, expanded a difficulty switch, or emitted more instructions than source statements; distinct by full case text"
     }
     fn tape_len(&self, tier: Tier) -> usize { tier.pick(400, 700) }
-    fn cases(&self, tier: Tier) -> u32 { tier.pick(4000, 300000) }
+    fn cases(&self, tier: Tier) -> u32 { tier.pick(150000, 3000000) }
     fn required_labels(&self, _tier: Tier) -> Vec<&'static str> { vec!["has_temp", "diff_expanded", "two_part_condjmp", "loop_executed"] }
 
     fn generate(&self, tape: &mut Tape, _tier: Tier, known: &Known) -> Value {
